@@ -11,6 +11,7 @@ import (
 	"strconv"
 	"sync"
 	"testing"
+	"time"
 
 	"pgregory.net/rapid"
 
@@ -32,6 +33,9 @@ type c16Plan struct {
 	IgnoreIdx []int      `json:"ignore_idx"` // positions (mod N) ignored by id
 	IgnoreOff []int      `json:"ignore_off"` // positions (mod N) ignored by offset
 	ReadFrom  []int      `json:"read_from"`  // read offsets (mod N+2)
+	// Volume: every message is close to the largest the reader accepts, so that the whole log holds tens of MiB - a
+	// reader gets everything from its offset onward however much that is
+	Volume bool `json:"volume,omitempty"`
 }
 
 const c16MaxLine = 1<<20 - 64 // the reader's Scanner buffer is 1 MiB; stay inside what it accepts
@@ -54,6 +58,19 @@ func c16Gen(rt *rapid.T) c16Plan {
 	}
 	nw := rapid.IntRange(1, maxW).Draw(rt, "writers")
 	big := 0
+	p.Volume = rapid.IntRange(0, 13).Draw(rt, "volume") == 0
+	if p.Volume {
+		nw = rapid.IntRange(2, 3).Draw(rt, "volWriters")
+		for w := 0; w < nw; w++ {
+			k := rapid.IntRange(10, 16).Draw(rt, "volMsgs")
+			var ms []c16Msg
+			for i := 0; i < k; i++ {
+				ms = append(ms, c16Msg{Line: rapid.IntRange(700*1024, c16MaxLine).Draw(rt, "l")})
+			}
+			p.Writers = append(p.Writers, ms)
+		}
+		nw = 0
+	}
 	for w := 0; w < nw; w++ {
 		maxMsgs := 24
 		if p.Procs {
@@ -176,6 +193,9 @@ func c16Run(st *vstat.Stats, p c16Plan) *viol {
 			case <-stopSnap:
 				return
 			default:
+			}
+			if p.Volume {
+				time.Sleep(5 * time.Millisecond) // tens of MiB per snapshot: do not spin
 			}
 			if bz, err := os.ReadFile(file); err == nil && len(bz) > 0 {
 				snapMu.Lock()
@@ -351,6 +371,12 @@ func c16Run(st *vstat.Stats, p c16Plan) *viol {
 	}
 	if maxLine > 500*1024 {
 		st.Class("has-line>500KiB")
+	}
+	if len(final) > 16<<20 {
+		st.Class("log>16MiB")
+	}
+	if len(final) > 32<<20 {
+		st.Class("log>32MiB")
 	}
 	hasIgnore := len(p.IgnoreIdx)+len(p.IgnoreOff) > 0
 	nonZeroRead := false
